@@ -186,7 +186,7 @@ def rigidF(E, w):
 
 def harnesses(tier):
     q = tier == "quick"
-    T = 600 if q else 2400
+    T = 600 if q else 900
     hs = []
     for cls in ('monoidal', 'rigid'):
         k, w, a, L = (1, 2, 1, 2) if q else (2, 2, 2, 2)
